@@ -44,6 +44,8 @@ def main():
         srcabs = os.path.abspath(src)
         stubs = " ".join(f"-I{os.path.join(srcabs, d)}" for d in sorted(os.listdir(srcabs)) if os.path.isdir(os.path.join(srcabs, d)))
         extra = f"-I{wt}/include/m17cxx -I{wt}/apps -I{srcabs} {stubs} -pthread -lcodec2 -lboost_program_options"
+        if os.path.exists(os.path.join(srcabs, "demo.flags")):            # compiler flags the demonstration needs (sanitizers, assertions)
+            extra = open(os.path.join(srcabs, "demo.flags")).read().strip() + " " + extra
         script = os.path.join(srcabs, "demo.sh")
         use_script = (not os.path.exists(demo)) and os.path.exists(script)      # a demonstration script, run from the tree's root
         def run_demo(tag):
@@ -89,8 +91,8 @@ def main():
     meta["detected_by"] = [r["check"] for r in meta["ran"] if r["exit"] == 1 and r["violation_lines"]]
     dst = os.path.join(DEST, "seeded", sid)
     os.makedirs(dst, exist_ok=True)
-    extra_files = [f for f in os.listdir(src) if f.endswith((".h", ".hpp", ".inc")) and os.path.isfile(os.path.join(src, f))]
-    for f in ["patch.diff", "demo.cpp", "demo.sh", "notes.md"] + extra_files:
+    extra_files = [f for f in os.listdir(src) if f.endswith((".h", ".hpp", ".inc", ".cpp")) and f != "demo.cpp" and os.path.isfile(os.path.join(src, f))]
+    for f in ["patch.diff", "demo.cpp", "demo.sh", "demo.flags", "notes.md"] + extra_files:
         if os.path.exists(os.path.join(src, f)) and os.path.abspath(os.path.join(src, f)) != os.path.abspath(os.path.join(dst, f)):
             shutil.copy(os.path.join(src, f), os.path.join(dst, f))
     for d in os.listdir(src):
